@@ -115,7 +115,12 @@ static Result from_json(const json &j) {
 // Runs body() in a child process.  A child that dies (sanitizer report, assert, abort, signal, timeout) gives
 // Result::fail(crash_key).  The child's stdout goes to /dev/null (the readers are chatty), stderr to a scratch file
 // whose tail is put into the message.
-static Result in_child(const std::function<Result()> &body, const std::string &crash_key) {
+// The body announces what it is doing with stage("..."): the last stage reached goes into the key of a crash.
+static void stage(const char *s) {
+  fprintf(stderr, "\nVV-STAGE %s\n", s);
+  fflush(stderr);
+}
+static Result in_child(const std::function<Result()> &body, const std::function<std::string(const std::string &, const std::string &)> &crash_key) {
   const std::string errf = scratch() + "/child.stderr";
   int fd[2];
   if (pipe(fd) != 0) {
@@ -176,9 +181,16 @@ static Result in_child(const std::function<Result()> &body, const std::string &c
   if (!clean) {
     std::string err = slurp(errf);
     // keep the informative head of a sanitizer report / assertion message
-    if (err.size() > 1200) err = err.substr(0, 1200) + " ...";
     r = Result();
-    r.fail(crash_key, fmt("child process died (wait status 0x%x) while running the code under test: ", status) + err);
+    std::string stg = "start";
+    size_t sp = err.rfind("VV-STAGE ");
+    if (sp != std::string::npos) {
+      size_t e = err.find('\n', sp);
+      stg = err.substr(sp + 9, e == std::string::npos ? std::string::npos : e - sp - 9);
+      err = e == std::string::npos ? "" : err.substr(e + 1);
+    }
+    if (err.size() > 1200) err = err.substr(0, 1200) + " ...";
+    r.fail(crash_key(stg, err), fmt("child process died (wait status 0x%x) in stage '%s' of the code under test: ", status, stg.c_str()) + err);
   }
   unlink(errf.c_str());
   return r;
@@ -552,6 +564,7 @@ static Result roundtrip_body(const json &c) {
   r.nontrivial = nf >= 2 || (F.boxcomp == 9 && bk >= 2) || (carry_v && carry_f);
 
   // ---- write
+  stage("write");
   {
     Topology top;
     build_top(top, c);
@@ -589,6 +602,7 @@ static Result roundtrip_body(const json &c) {
   }
 
   // ---- read into a fresh topology
+  stage("read");
   std::vector<Snap> got;
   {
     Topology top2;
@@ -722,7 +736,13 @@ static Result roundtrip_body(const json &c) {
   }
 
   // ---- names / types as far as the format stores them (topology read from the first frame of the same file)
+  stage("compare-done");
+  if (fname == "dump" && known("LAMMPSDumpReader/topology-type-id-0")) {
+    r.cls("excluded-known:LAMMPSDumpReader/topology-type-id-0(types not checked)");
+    return r;
+  }
   if (fname == "gro" || fname == "xyz" || fname == "dump") {
+    stage("topology-read");
     Topology t3;
     try {
       std::unique_ptr<votca::csg::TopologyReader> tr = votca::csg::TopReaderFactory().Create(file);
@@ -775,7 +795,13 @@ static Result roundtrip_body(const json &c) {
 static Result run_traj(const json &c) {
   const std::string fname = c.at("fmt");
   const std::string FN = fname == "gro" ? "GRO" : fname == "pdb" ? "PDB" : fname == "xyz" ? "XYZ" : fname == "dump" ? "LAMMPSDump" : "DLPOLY";
-  Result r = in_child([&] { return roundtrip_body(c); }, FN + "/crash");
+  Result r = in_child([&] { return roundtrip_body(c); },
+                      [&](const std::string &stg, const std::string &err) -> std::string {
+                        // the dump writer numbers types from 0, the dump topology reader reserves id 0 for its dummy type
+                        if (fname == "dump" && stg == "topology-read" && err.find("RegisterBeadType") != std::string::npos)
+                          return "LAMMPSDumpReader/topology-type-id-0";
+                        return FN + "/crash-in-" + stg;
+                      });
   unlink((scratch() + "/t." + fname).c_str());
   return r;
 }
@@ -871,6 +897,7 @@ static Result mismatch_body(const json &c) {
 
   const std::string good = scratch() + "/good." + fname, badf = scratch() + "/bad." + fname;
   // ---- control: all frames have n atoms -> must be readable with the n-bead topology
+  stage("control-file");
   try {
     write_file(good, n);
     Topology t;
@@ -896,7 +923,9 @@ static Result mismatch_body(const json &c) {
     return r;
   }
   // ---- the mismatching file
+  stage("write-mismatching-file");
   write_file(badf, m);
+  stage("read-mismatching-file");
   Topology t;
   make_top(t, n);
   std::unique_ptr<votca::csg::TrajectoryReader> rd = votca::csg::TrjReaderFactory().Create(badf);
@@ -948,7 +977,9 @@ static Result run_mismatch(const json &c) {
   // exception; the missing or late check is the root cause, so it gets the reader's mismatch key
   std::string crash_key = RN + "/natoms-mismatch-accepted";
   if (fname == "pdb") crash_key = "PDBReader/natoms-mismatch-overrun";
-  Result r = in_child([&] { return mismatch_body(c); }, crash_key);
+  Result r = in_child([&] { return mismatch_body(c); }, [&](const std::string &stg, const std::string &) -> std::string {
+    return stg == "read-mismatching-file" ? crash_key : RN + "/crash-in-" + stg;
+  });
   unlink((scratch() + "/good." + fname).c_str());
   unlink((scratch() + "/bad." + fname).c_str());
   return r;
@@ -956,9 +987,9 @@ static Result run_mismatch(const json &c) {
 
 // ------------------------------------------------------------------------------------------------ tables
 struct Quiet {  // the imcio writers report on std::cout
-  std::streambuf *old;
   std::ostringstream sink;
-  Quiet() : old(std::cout.rdbuf(sink.rdbuf())) {}
+  std::streambuf *old;
+  Quiet() : sink(), old(std::cout.rdbuf(sink.rdbuf())) {}
   ~Quiet() { std::cout.rdbuf(old); }
 };
 
@@ -982,7 +1013,10 @@ static json gen_table() {
     x.push_back(uniform ? x0 + i * dx : cur);
     cur += double(ri(1, 5000)) / 10000.0;
     y.push_back(gen_value());
-    e.push_back(std::fabs(gen_value()));
+    {
+      double ev = std::fabs(gen_value());
+      e.push_back(ev == 0 ? 0.25 : ev);  // never 0: a dropped column must not pass by accident
+    }
     flags += pick<char>({'i', 'o', 'u'});
   }
   c["x"] = x;
@@ -1075,7 +1109,8 @@ static json gen_matrix() {
   json c;
   int m = rcount(1, 12), n = rbool(35) ? m : rcount(1, 12);
   bool sym = (m == n) && rbool(35);
-  std::vector<std::vector<double>> A(size_t(m), std::vector<double>(size_t(n)));
+  std::vector<std::vector<double>> A;
+  A.assign(static_cast<size_t>(m), std::vector<double>(static_cast<size_t>(n), 0.0));
   for (int i = 0; i < m; ++i)
     for (int j = 0; j < n; ++j) {
       int k = ri(0, 9);
